@@ -41,7 +41,7 @@ _cache_ready = False
 
 
 def cache_dir():
-    """build/<hash>; cache directories that have not been used for 12 hours are pruned (several trees may be checked
+    """build/<hash>; cache directories that have not been used for 4 hours are pruned (several trees may be checked
     concurrently: /repo and scratch copies given through VERIF_REPO, which drop their own directory when done: --drop)"""
     global _cache_ready
     d = os.path.join(BUILD, tree_hash())
@@ -56,7 +56,7 @@ def cache_dir():
     for o in glob.glob(os.path.join(BUILD, '*')):
         if os.path.isdir(o) and os.path.basename(o) != tree_hash() and len(os.path.basename(o)) == 16:
             try:
-                if time.time() - os.path.getmtime(o) > 12 * 3600:
+                if time.time() - os.path.getmtime(o) > 4 * 3600:
                     shutil.rmtree(o, ignore_errors=True)
             except OSError:
                 pass
